@@ -8,7 +8,7 @@ def main(tier, seed, replay=None):
     return sicheck.run(
         PROP, tier, seed, replay, "Proofs/SISound.vo",
         "(1) model vs real StridedInterval: add, sub, _wrapped_overflow_add, the eight order comparisons on every pair of the fixed domain, "
-        "neg, zero_extend, _unsigned_bounds, _signed_bounds and the "
+        "neg, bitwise_not, zero_extend, _unsigned_bounds, _signed_bounds and the "
         "constructor/normalize on every interval, raw constructor arguments, and each helper translated from the source against "
         "the real static method; (2) soundness sweep of the real add/sub/mul/udiv/sdiv/mod/and/or/xor/shl/lshr/ashr, the nine "
         "comparisons, concat, neg/-/not, zero/sign extension and extraction: all intervals of width 1,2 (all pairs), width 3 "
@@ -16,7 +16,7 @@ def main(tier, seed, replay=None):
         "seed-dependent pairs; each result must contain f(x,y) for every member pair (members enumerated from the definition; "
         "at most 40 sampled per operand when larger).  distinct = (operation,input) evaluations that passed",
         ["Print Assumptions of Props/C21.v theorems: Closed under the global context",
-         "proved: add (all operands), sub/neg (subtrahend's upper bound a member), normalize, zero_extend (non-wrapping), the eight "
+         "proved: add, sub, neg, bitwise_not, zero_extend (all operands; stride 0 only for single values), normalize, the eight "
          "order comparisons (all operands); every other transfer function is NOT modelled and is only tested by the sweep",
          "tools/py2coq.py translates the integer helpers (_modular_add/_modular_sub/max_int/_wrapped_cardinality...) on every "
          "run; Model/SI.v (record-level operations) is hand-written and tied by exact result comparison",
